@@ -315,6 +315,7 @@ fn main() {
             vec![(11, 2, 2, true), (3, 11, 2, true)]
         };
         let wcases: Vec<(String, (usize, usize, usize, bool))> = shapes.into_iter().map(|s| (format!("wacc/{}f+{}p/x{}/{}", s.0, s.1, s.2, if s.3 { "distinct" } else { "equal" }), s)).collect();
+        cx.next_group_share(if thorough { 200.0 } else { 25.0 });
         cx.run_cases("e-witnessed-accumulators", &wcases, |(f, p, n, d)| wacc::eval(*f, *p, *n, *d, seed, thorough));
     }
 
